@@ -637,7 +637,9 @@ impl WorldB {
                     state,
                 );
                 if o.market {
+                    // the exchange reports the order with the attributes it was requested with
                     snap.kind = OrderKind::Market;
+                    snap.time_in_force = barter_execution::order::TimeInForce::ImmediateOrCancel;
                 }
                 EngineEvent::Account(AccountStreamEvent::Item(ev_order_snapshot(ex, snap)))
             }
